@@ -72,6 +72,8 @@ def mutate(r, g, insts, per_class=2):
                     for bad in WRONG_KIND[kind]:
                         if bad == "$" and opt:
                             continue
+                        if kind == "KSelect" and "(" in bad and bad.split("(")[0] in [m_[0] for m_ in at[1]]:
+                            continue        # a member of this very select (top_sel lists color): not a fault
                         cls = "wrong_kind"
                         if bad in (".PURPLE.", ".MAYBE."):
                             cls = "undeclared_enum_item"
